@@ -192,6 +192,127 @@ theorem waFlat_mono_le (hI : ∀ n, I n ≤ 2) {g h : EGraph} (hg : WF I g) (hh 
   · exact Or.inl (Flags.ext_of_le (hle.fl src p) hp)
   · exact Or.inr (Flags.int_of_le (hle.fl src p) hp)
 
+/-! ### rows and subnode bits are untouched by the flat `WeakAssign` -/
+
+theorem addEdge_internal_sub (hI : ∀ n, I n ≤ 2) {g : EGraph} (hg : WF I g) (d p a b : Node) :
+    ((addEdge I g d p Flags.internal).fl a b).sub = (g.fl a b).sub := by
+  rw [addEdge_fl hI hg.toRep]
+  split
+  · rename_i e; obtain ⟨rfl, rfl⟩ := e
+    generalize g.fl a b = c; rcases c with ⟨c1, c2, c3⟩; simp [Flags.or, Flags.internal]
+  · rfl
+
+theorem addEdge_row (hI : ∀ n, I n ≤ 2) {g : EGraph} (hg : WF I g) (d p : Node) (f : Flags) {a : Node}
+    (ha : a ≠ d) (b : Node) : (addEdge I g d p f).fl a b = g.fl a b := by
+  rw [addEdge_fl hI hg.toRep, if_neg (fun e => ha e.1)]
+
+theorem waStep_sub_row (hI : ∀ n, I n ≤ 2) {g : EGraph} (hg : WF I g) (dest : Node) (e : Node × Flags) :
+    (∀ a b, ((waStep I dest g e).fl a b).sub = (g.fl a b).sub) ∧
+    (∀ a, a ≠ dest → ∀ b, (waStep I dest g e).fl a b = g.fl a b) := by
+  unfold waStep
+  cases e.2.ext <;> cases e.2.int <;> simp
+  · exact ⟨fun a b => addEdge_internal_sub hI hg _ _ a b, fun a ha b => addEdge_row hI hg _ _ _ ha b⟩
+  · exact ⟨fun a b => addEdge_internal_sub hI hg _ _ a b, fun a ha b => addEdge_row hI hg _ _ _ ha b⟩
+  · have hw := addEdge_wf hI hg dest e.1 Flags.internal
+    exact ⟨fun a b => by rw [addEdge_internal_sub hI hw, addEdge_internal_sub hI hg],
+      fun a ha b => by rw [addEdge_row hI hw _ _ _ ha, addEdge_row hI hg _ _ _ ha]⟩
+
+theorem waFlat_sub_row (hI : ∀ n, I n ≤ 2) {g : EGraph} (hg : WF I g) (dest src : Node) :
+    (∀ a b, ((waFlat I g dest src).fl a b).sub = (g.fl a b).sub) ∧
+    (∀ a, a ≠ dest → ∀ b, (waFlat I g dest src).fl a b = g.fl a b) := by
+  have key := foldl_keep (waStep I dest) (fun c => WF I c)
+    (fun c => (∀ a b, (c.fl a b).sub = (g.fl a b).sub) ∧ (∀ a, a ≠ dest → ∀ b, c.fl a b = g.fl a b))
+    ((pointees (addNode I g dest) src).map fun d => (d, (addNode I g dest).fl src d)) (addNode I g dest)
+    (addNode_wf hI hg dest)
+    ⟨fun a b => by rw [addNode_fl hg.toRep], fun a _ b => addNode_fl hg.toRep dest a b⟩
+    (fun c e _ hc => waStep_wf hI hc dest e)
+    (fun c e _ hc hq => by
+      obtain ⟨h1, h2⟩ := waStep_sub_row hI hc dest e
+      exact ⟨fun a b => by rw [h1, hq.1], fun a ha b => by rw [h2 a ha, hq.2 a ha]⟩)
+  exact key.2
+
+/-! ### folds of flat weak assignments (`StoreField` / `LoadField` with an empty field name) -/
+
+/-- the graph computed by a sequence of flat weak assignments -/
+def foldWA (I : Node → Nat) (g : EGraph) (ps : List (Node × Node)) : EGraph :=
+  ps.foldl (fun g pr => waFlat I g pr.1 pr.2) g
+
+theorem foldWA_spec (hI : ∀ n, I n ≤ 2) {g : EGraph} (hg : WF I g) (ps : List (Node × Node)) :
+    WF I (foldWA I g ps) ∧ LE g (foldWA I g ps) ∧
+    ∀ pr, pr ∈ ps → ∀ q, ((g.fl pr.2 q).ext = true ∨ (g.fl pr.2 q).int = true) →
+      ((foldWA I g ps).fl pr.1 q).int = true := by
+  have key := foldl_inv (fun (c : EGraph) (pr : Node × Node) => waFlat I c pr.1 pr.2)
+    (fun c => WF I c ∧ LE g c)
+    (fun pr c => ∀ q, ((g.fl pr.2 q).ext = true ∨ (g.fl pr.2 q).int = true) → (c.fl pr.1 q).int = true) ps g
+    ⟨hg, LE.refl g⟩
+    (fun c pr _ inv => by
+      have sp := waFlat_spec hI inv.1 pr.1 pr.2
+      refine ⟨⟨sp.wf, inv.2.trans sp.ge⟩, fun q hq => sp.edges q ?_⟩
+      rcases hq with h | h
+      · exact Or.inl (Flags.ext_of_le (inv.2.fl _ _) h)
+      · exact Or.inr (Flags.int_of_le (inv.2.fl _ _) h))
+    (fun c pr pr' _ inv hq q he => by
+      have sp := waFlat_spec hI inv.1 pr'.1 pr'.2
+      exact Flags.int_of_le (sp.ge.fl pr.1 q) (hq q he))
+  exact ⟨key.1.1, key.1.2, key.2⟩
+
+/-- **monotone**, when no source of an assignment is the destination of one (in SSA form the value
+nodes read by a store or load are never pointees written by it) -/
+theorem foldWA_mono_le (hI : ∀ n, I n ≤ 2) {g h : EGraph} (hg : WF I g) (hh : WF I h) (hle : LE g h)
+    (ps ps' : List (Node × Node)) (hsub : ∀ pr, pr ∈ ps → pr ∈ ps')
+    (hdisj : ∀ pr pr', pr ∈ ps → pr' ∈ ps → pr.2 ≠ pr'.1)
+    (hdom : ∀ pr, pr ∈ ps → pr.1 ∈ h.dom) : LE (foldWA I g ps) (foldWA I h ps') := by
+  obtain ⟨hK, hhK, hKe⟩ := foldWA_spec hI hh ps'
+  -- generalise over the remaining suffix of ps
+  suffices hgen : ∀ (l : List (Node × Node)) (c : EGraph), (∀ pr, pr ∈ l → pr ∈ ps) → WF I c →
+      LE c (foldWA I h ps') → (∀ pr, pr ∈ ps → ∀ q, c.fl pr.2 q = g.fl pr.2 q) →
+      LE (foldWA I c l) (foldWA I h ps') from
+    hgen ps g (fun _ h => h) hg (hle.trans hhK) (fun _ _ _ => rfl)
+  intro l
+  induction l with
+  | nil => intro c _ _ hc _; exact hc
+  | cons pr l ih =>
+    intro c hl hc hcK hrows
+    have hpr : pr ∈ ps := hl pr List.mem_cons_self
+    show LE (foldWA I (waFlat I c pr.1 pr.2) l) _
+    have sp := waFlat_spec hI hc pr.1 pr.2
+    apply ih _ (fun x hx => hl x (List.mem_cons_of_mem _ hx)) sp.wf
+    · apply sp.least _ hK hcK (hhK.dom _ (hdom pr hpr))
+      intro q hq
+      apply hKe pr (hsub pr hpr) q
+      rw [hrows pr hpr q] at hq
+      rcases hq with e | e
+      · exact Or.inl (Flags.ext_of_le (hle.fl _ _) e)
+      · exact Or.inr (Flags.int_of_le (hle.fl _ _) e)
+    · intro pr2 hpr2 q
+      rw [(waFlat_sub_row hI hc pr.1 pr.2).2 pr2.2 (hdisj pr2 pr hpr2 hpr) q]
+      exact hrows pr2 hpr2 q
+
+/-- `StoreField(addr, val, "")` on the flat fragment is a fold of flat weak assignments and leaves
+the node group alone -/
+theorem storeField_flat (ng : NG) (hI : ∀ n, ng.intr n ≤ 2) {g : EGraph} (hg : WF ng.intr g) (addr val : Node)
+    (hns : NoSubOut g val) :
+    storeField ng g addr val none = (ng, foldWA ng.intr g ((pointees g addr).map fun p => (p, val))) := by
+  unfold storeField
+  suffices hgen : ∀ (l : List Node) (c : EGraph), WF ng.intr c → NoSubOut c val →
+      l.foldl (fun (acc : NG × EGraph) p => weakAssign (acc.1.next + 2) acc.1 acc.2 p val) (ng, c) =
+        (ng, foldWA ng.intr c (l.map fun p => (p, val))) from hgen _ g hg hns
+  intro l
+  induction l with
+  | nil => intro c _ _; rfl
+  | cons p l ih =>
+    intro c hc hcn
+    simp only [List.foldl_cons, List.map_cons]
+    have hn1 : NoSubOut (addNode ng.intr c p) val := fun q => by rw [addNode_fl hc.toRep]; exact hcn q
+    have e : weakAssign (ng.next + 2) ng c p val = (ng, waFlat ng.intr c p val) :=
+      weakAssign_flat ng c (ng.next + 1) p val hn1
+    rw [e]
+    have hw := (waFlat_spec hI hc p val).wf
+    have hn2 : NoSubOut (waFlat ng.intr c p val) val := fun q => by
+      rw [(waFlat_sub_row hI hc p val).1]; exact hcn q
+    rw [ih _ hw hn2]
+    rfl
+
 /-! ### `CallUnknown` -/
 
 theorem leakAll_spec {g : EGraph} (hg : WF I g) (ns : List Node) (hns : ∀ n, n ∈ ns → n ∈ g.dom) :
